@@ -9,6 +9,12 @@
   `finite_differences` (any dilation). The sign convention of the Lie bracket is the code's:
   `lie_bracket(v, u) = Jac(v) u − Jac(u) v`.
 
+  Data-type entry point. `FlowFields.curl` / `FlowField.curl` (data/flow.py) derive the spacing they pass to `U.curl`
+  from the axes of the flow field when the caller gives none (Model/CurlSpacing `curlDefaultSpacing`, re-translated
+  from the source on every run, harness/gen/C12.lean.in). `C12_curl_default_spacing_is_axes_step`: that spacing is the
+  step between neighbouring grid points in those axes (`fromGrid`, the C01 coordinate maps);
+  `C12_flowfields_curl_affine`: hence the curl of an affine field of the axes coordinates is exact.
+
   Not proved here: `C12_bspline_mode` (values = analytic spline derivatives) belongs to C14 (the B-spline
   weights are taken as given); the dictionary logic of the B-spline branch IS proved (`*_bspline`), its
   values are tied by correspondence and an independent analytic oracle. `C12_jacdet_perm`:
@@ -21,6 +27,7 @@
     C12_jacobian_affine_2 C12_jacobian_affine_3 C12_div_curl_affine_2 C12_div_curl_affine_3
     C12_second_affine_zero C12_second_quadratic C12_mixed_symmetric C12_subset C12_subset_flow
     C12_subset_bspline C12_subset_flow_bspline C12_mixed_symmetric_bspline
+    C12_curl_default_spacing_is_axes_step C12_flowfields_curl_affine
 
 -/
 import Deepali.Proofs.FDCalc
@@ -28,6 +35,8 @@ import Deepali.Proofs.FDQuad
 import Deepali.Proofs.FDQuadAvg
 import Deepali.Proofs.FDDict
 import Deepali.Proofs.FDAffine2
+import Deepali.Proofs.FDCurlSpacing
+import Deepali.Proofs.Examples
 import Mathlib.Tactic.NormNum
 import Mathlib.Tactic.FinCases
 
@@ -443,5 +452,90 @@ theorem C12_mixed_symmetric_bspline {A : Type} :
     exact ⟨rfl, rfl⟩
   · intro deriv which i k k' hk hk' hs
     rw [flowDerivativesBSpline_spec deriv which i k hk, flowDerivativesBSpline_spec deriv which i k' hk', hs]
+
+/-! ### the data-type entry point `FlowFields.curl`: default spacing derived from the axes of the flow field -/
+
+section CurlEntry
+variable {F : Type} [Field F] [LinearOrder F] [IsStrictOrderedRing F] [FloorRing F] {d : Nat}
+
+/-- The spacing `FlowFields.curl` passes to `U.curl` when the caller gives none (`curlDefaultSpacing`, the if / elif
+    chain on `self.axes()`) is exactly the step between neighbouring grid points expressed in the axes of the flow
+    field. For a valid grid of integral size `n` (`2 ≤ n i` for CUBE_CORNERS), grid axis `i`, any (continuous) grid
+    index `j`, with `e_i = Pi.single i 1` and `x = fromGrid g a` the coordinates of grid points w.r.t. axes `a`:
+    * the spacing is non-zero (so the division of the finite-difference schemes is a genuine one);
+    * GRID, CUBE, CUBE_CORNERS: `x(j + e_i) − x(j) = spacing_i • e_i` (axis-aligned lattice);
+    * WORLD: `x(j + e_i) − x(j) = spacing_i • (column i of the direction matrix)`, a vector of squared length
+      `spacing_i ^ 2` (orthonormal direction) — the lattice is axis-aligned in world space iff the direction is a
+      signed permutation, and `U.curl` differentiates along GRID axes;
+    * the values: `1`, `g.spacing i`, `2 / n i`, `2 / (n i − 1)`. -/
+theorem C12_curl_default_spacing_is_axes_step {g : Grid d F} {n : Fin d → Nat} (hv : g.Valid) (hn : g.HasSize n)
+    (a : Axes) (h2 : a = .cubeCorners → ∀ i, 2 ≤ n i) (j : Vec d F) (i : Fin d) :
+    curlDefaultSpacing g a i ≠ 0 ∧
+    (a ≠ .world →
+      fromGrid g a (j + Pi.single i 1) - fromGrid g a j = Pi.single i (curlDefaultSpacing g a i)) ∧
+    (a = .world →
+      (∀ k, (fromGrid g a (j + Pi.single i 1) - fromGrid g a j) k = curlDefaultSpacing g a i * g.direction k i) ∧
+      ∑ k, (fromGrid g a (j + Pi.single i 1) - fromGrid g a j) k ^ 2 = curlDefaultSpacing g a i ^ 2) ∧
+    (curlDefaultSpacing g .grid i = 1 ∧ curlDefaultSpacing g .world i = g.spacing i ∧
+      curlDefaultSpacing g .cube i = 2 / (n i : F) ∧ curlDefaultSpacing g .cubeCorners i = 2 / ((n i : F) - 1)) := by
+  refine ⟨curlDefaultSpacing_ne hv hn a h2 i, fun ha => ?_, fun ha => ?_, ?_⟩
+  · rw [fromGrid_step]
+    funext k
+    rw [fromGridLin_eq_spacing g a ha]
+    by_cases hk : k = i
+    · subst hk; simp
+    · simp [hk]
+  · subst ha
+    have hstep : ∀ k, (fromGrid g .world (j + Pi.single i 1) - fromGrid g .world j) k
+        = curlDefaultSpacing g .world i * g.direction k i := by
+      intro k
+      rw [fromGrid_step, curlDefaultSpacing_world]
+      exact affine_mulVec_single g i k
+    refine ⟨hstep, ?_⟩
+    simp only [hstep, mul_pow, ← Finset.mul_sum]
+    have : ∑ k, g.direction k i ^ 2 = 1 := by
+      simpa [pow_two] using direction_col_sq hv i
+    rw [this, mul_one]
+  · refine ⟨curlDefaultSpacing_grid g i, curlDefaultSpacing_world g i, ?_, ?_⟩
+    · rw [curlDefaultSpacing_cube, hn i]
+    · rw [curlDefaultSpacing_cubeCorners, hn i]
+
+/-- `FlowFields.curl()` (no `spacing` argument) of an affine field given in the axes of the flow field: for
+    `a` ∈ {GRID, CUBE, CUBE_CORNERS}, a valid grid of integral size `n` (`2 ≤ n i` for CUBE_CORNERS), and the field
+    `v(idx) = A · x(idx) + t` with `x = fromGrid g a` the coordinates of the grid points w.r.t. `a`, the curl computed
+    through the whole `U.curl` pipeline with `curlDefaultSpacing g a`, by any finite-difference scheme, is the analytic
+    curl of `A` at every point where the scheme is exact (every grid point for forward_central_backward — the
+    default — prewitt and sobel). WORLD axes are excluded: there `U.curl` differentiates along the GRID axes with
+    the world spacing, which is the analytic curl only for an axis-aligned direction (no theorem here; the
+    `entry_points` oracle samples identity directions). -/
+theorem C12_flowfields_curl_affine (mode : SDMode) (a : Axes) (ha : a ≠ .world) :
+    (∀ {g : Grid 2 F} {n : Fin 2 → Nat}, g.Valid → g.HasSize n → (a = .cubeCorners → ∀ i, 2 ≤ n i) →
+      ∀ (A : Fin 2 → Fin 2 → F) (t : Fin 2 → F) (idx : Idx 2), ExactAt mode n idx →
+        curl id (sdStep mode n (curlDefaultSpacing g a))
+          (fun i idx' => ((toM A) *ᵥ (fromGrid g a (idxVec idx')) + t) i) idx = some [A 1 0 - A 0 1]) ∧
+    (∀ {g : Grid 3 F} {n : Fin 3 → Nat}, g.Valid → g.HasSize n → (a = .cubeCorners → ∀ i, 2 ≤ n i) →
+      ∀ (A : Fin 3 → Fin 3 → F) (t : Fin 3 → F) (idx : Idx 3), ExactAt mode n idx →
+        curl id (sdStep mode n (curlDefaultSpacing g a))
+          (fun i idx' => ((toM A) *ᵥ (fromGrid g a (idxVec idx')) + t) i) idx
+          = some [A 2 1 - A 1 2, A 0 2 - A 2 0, A 1 0 - A 0 1]) := by
+  constructor
+  · intro g n hv hn h2 A t idx hex
+    rw [axesField_eq_affFlow g a ha A t]
+    exact (C12_div_curl_affine_2 mode n A _ _ (fun i => curlDefaultSpacing_ne hv hn a h2 i) idx hex).2
+  · intro g n hv hn h2 A t idx hex
+    rw [axesField_eq_affFlow g a ha A t]
+    exact (C12_div_curl_affine_3 mode n A _ _ (fun i => curlDefaultSpacing_ne hv hn a h2 i) idx hex).2
+
+/-- non-vacuity: a valid 5 × 4 grid; in CUBE_CORNERS axes the default spacing is `(2/4, 2/3)`, in CUBE `(2/5, 2/4)`. -/
+example : exampleGrid.Valid ∧ exampleGrid.HasSize ![5, 4] ∧ (∀ i, 2 ≤ (![5, 4] : Fin 2 → Nat) i) ∧
+    curlDefaultSpacing exampleGrid .cubeCorners 0 = 1 / 2 ∧ curlDefaultSpacing exampleGrid .cubeCorners 1 = 2 / 3 ∧
+    curlDefaultSpacing exampleGrid .cube 0 = 2 / 5 := by
+  refine ⟨exampleGrid_valid, exampleGrid_hasSize, ?_, ?_, ?_, ?_⟩
+  · intro i; fin_cases i <;> simp
+  · rw [curlDefaultSpacing_cubeCorners, exampleGrid_size]; norm_num
+  · rw [curlDefaultSpacing_cubeCorners, exampleGrid_size]; norm_num
+  · rw [curlDefaultSpacing_cube, exampleGrid_size]; norm_num
+
+end CurlEntry
 
 end Deepali
